@@ -216,6 +216,8 @@ def _weights_by_value(prog: Program, m):
             inner = inner.args[0]
         if fn(inner) == "SEQ":
             body = inner.args[0]
+            if fn(body) == "repeat" and len(body.args) == 3 and body.args[0] == sp.Symbol("itertools", real=True):
+                body = sp.Function("repeat")(*body.args[1:])       # itertools.repeat(w, n)
             if fn(body) == "repeat" and len(body.args) == 2:
                 w_ = body.args[0][0] if isinstance(body.args[0], sp.Tuple) and len(body.args[0]) == 1 else body.args[0]
                 return inner.args[1], back(w_), back(body.args[1]), hvname
